@@ -92,9 +92,9 @@ def WState.step (m : NsMap) (isDatatype : Str → Bool) (w : WState) : Ev → Ex
     | none => .error (.unsupported "data payload")
     | some value =>
       let w := w.flush value.isNone
+      -- consecutive chunks are written in the order they arrive
       let w := match value with
-        | some s => if s.isEmpty then w else
-            (if !w.inTail then { w with out := w.out ++ [Sax.chars s] } else { w with tail := some s })
+        | some s => if s.isEmpty then w else { w with out := w.out ++ [Sax.chars s] }
         | none => w
       .ok { w with inTail := true }
   | .end q =>
